@@ -9,7 +9,9 @@ RULE = ("op `eval`: each generated program text is scanned, parsed, compiled and
         "is the oracle; non-trivial = the program ran to a value or a runtime error and the oracle constrained it")
 ASSUMPTIONS = ["the AST given to the reference semantics is the real parser's (the parser is covered by C01/C03)",
                "oracle-unconstrained zones: assignment to a captured variable, a name used inside its own let initializer, == on containers/functions, map iteration order, "
-               "builtins outside the documented core (the verdict is then `nopanic`)"]
+               "builtins outside the documented core (the verdict is then `nopanic`)",
+               "core-fn programs with containers: an array used as a map key is not written afterwards (the real table does not re-hash a stored key whose "
+               "contents change; the model compares keys by their current contents) and no container is stored into itself (no cycles)"]
 BINARY_PROFILES = []
 HARNESS_TIMEOUT = 20
 
@@ -360,8 +362,10 @@ def core_fn_program(rng, typed=True):
     q = rng.random()
     if q < 0.3:
         return core_clos_program(rng)      # closures: function literals inside function bodies capturing locals and parameters
-    if q < 0.55:
+    if q < 0.5:
         return core_heap_program(rng)      # arrays and maps: shared objects, aliases, index reads and writes
+    if q < 0.65:
+        return core_builtin_program(rng)   # the pure builtins called by name on shared arrays and maps
     ex = fn_int if typed else fn_any
     lines = []
     counter = [0]
@@ -889,6 +893,162 @@ CORE_HEAP_FIXED = [
 ]
 
 
+# ---- pure builtins called by name (lean/P2sh/Core/Fn: `bfn`, `callBuiltinH`; theorem builtin_call_correct) ----
+def core_builtin_program(rng):
+    """a program of lean/P2sh/Core/Fn calling the pure builtins by name: `len`, `first`, `last`, `rest`, `push`, `pop`, `get`,
+    `contains`, `insert`, `str`, `int`, `sort`, `chars`, `join`, `tolower`, `toupper`, `is_error`, `char`, `byte` on shared
+    arrays and maps (a mutating builtin changes the object every alias sees; `rest` / `chars` build new objects), builtins as
+    values (`let f = len;`), user bindings that shadow a builtin (a global, a parameter, a local in a block — after the block
+    the builtin is visible again), wrong arities and argument kinds (runtime errors)"""
+    L = []
+    n = [0]
+
+    def fresh(p):
+        n[0] += 1
+        return f"{p}{n[0]}"
+
+    arrs, maps, ints, strs = {}, [], [], []
+    lit = lambda: str(rng.choice([0, 1, 2, 3, 5, 9, 17, 100]))
+
+    def iexp(d=2):
+        r = rng.random()
+        if d <= 0 or r < 0.2:
+            return rng.choice(ints) if ints and rng.random() < 0.5 else lit()
+        if r < 0.35 and arrs:
+            return f"len({rng.choice(list(arrs))})"
+        if r < 0.45 and arrs:
+            a = rng.choice(list(arrs))
+            return rng.choice([f"first({a})", f"last({a})", f"get({a}, {rng.randrange(3)})", f"{a}[0]"]) if arrs[a] > 0 else f"len({a})"
+        if r < 0.52 and strs:
+            return f"len({rng.choice(strs)})"
+        if r < 0.6:
+            return f"int(\"{rng.choice(['12', '-7', '0', '99'])}\")"
+        if r < 0.66 and maps:
+            m = rng.choice(maps)
+            return f"if contains({m}, {rng.choice(['1', '2', chr(34) + 'a' + chr(34)])}) {{ {iexp(d - 1)} }} else {{ len({m}) }}"
+        if r < 0.72:
+            return f"int({rng.choice(['true', 'false', chr(39) + 'a' + chr(39), 'b' + chr(39) + 'x' + chr(39), lit()])})"
+        return f"({iexp(d - 1)} {rng.choice(['+', '-', '*'])} {iexp(d - 1)})"
+
+    if rng.random() < 0.3:
+        f = fresh("f")
+        L.append(f"fn {f}(len) {{ len + 1 }}")      # a parameter named like a builtin
+        ints_f = f
+    else:
+        ints_f = None
+    for _ in range(rng.randint(4, 10)):
+        r = rng.random()
+        A = list(arrs)
+        if r < 0.15 or not A:
+            a = fresh("a")
+            k = rng.randint(1, 4)
+            L.append(f"let {a} = [" + ", ".join(iexp(1) for _ in range(k)) + "];")
+            arrs[a] = k
+        elif r < 0.27:
+            a = rng.choice(A)
+            L.append(f"push({a}, {iexp(1)});")
+            arrs[a] += 1
+        elif r < 0.35:
+            a = rng.choice(A)
+            v = fresh("p")
+            L.append(f"let {v} = pop({a});")
+            if arrs[a] > 0:
+                arrs[a] -= 1
+                ints.append(v)
+        elif r < 0.42:
+            a = rng.choice(A)
+            b = fresh("b")
+            L.append(f"let {b} = {a};")
+            arrs[b] = 0            # lengths of aliases are not tracked: only `len`, `push`, `pop`, `get` on them
+            arrs[a] = 0
+        elif r < 0.5:
+            a = rng.choice(A)
+            c = fresh("c")
+            L.append(f"let {c} = rest({a});")
+            if arrs[a] >= 2:
+                arrs[c] = arrs[a] - 1
+                L.append(f"{c}[0] = {iexp(1)};")
+        elif r < 0.57:
+            m = fresh("m")
+            L.append(f"let {m} = map {{" + ", ".join(f"{k}: {iexp(1)}" for k in rng.sample(['1', '2', '"a"', '"b"', 'true'], rng.randint(0, 3))) + "};")
+            maps.append(m)
+        elif r < 0.65 and maps:
+            m = rng.choice(maps)
+            v = fresh("o")
+            L.append(f"let {v} = insert({m}, {rng.choice(['1', '2', chr(34) + 'a' + chr(34), '[1]'])}, {iexp(1)});")
+        elif r < 0.7 and maps:
+            m = rng.choice(maps)
+            v = fresh("g")
+            L.append(f"let {v} = get({m}, {rng.choice(['1', '2', chr(34) + 'a' + chr(34), chr(34) + 'zz' + chr(34)])});")
+        elif r < 0.77:
+            s = fresh("s")
+            what = rng.choice([iexp(1), rng.choice(A), '"Ab"', "'c'", "true", "null", "[1, [2, \"x\"], null]"] + maps[:1])
+            L.append(f"let {s} = str({what});")
+            strs.append(s)
+        elif r < 0.82:
+            a = rng.choice(A)
+            s = fresh("t")
+            L.append(f"let {s} = sort({a});")
+            L.append(f"push({s}, {lit()});")
+            arrs[a] = 0
+        elif r < 0.86:
+            s = fresh("u")
+            L.append(f"let {s} = {rng.choice(['toupper', 'tolower'])}({rng.choice(strs) if strs else chr(34) + 'aBc' + chr(34)});")
+            strs.append(s)
+        elif r < 0.9:
+            s = fresh("w")
+            src = rng.choice(strs) if strs else '"hey"'
+            L.append(f"let {s} = chars({src});")
+            L.append(f"let {fresh('j')} = join({s}, \"-\");")
+        elif r < 0.94:
+            # a builtin as a value; a block-local binding that hides a builtin, visible again after the block
+            f = fresh("k")
+            b = rng.choice(["len", "first", "last"])
+            a = rng.choice(A)
+            L.append(f"let {f} = {b};")
+            v = fresh("r")
+            L.append(f"let {v} = 0;")
+            L.append(f"{{ let {b} = fn(x) {{ 1000 }}; {v} = {b}({a}); }}")
+            L.append(f"let {fresh('r')} = [{f}({a}), {b}({a}), {v}, {f} == {b}];")
+        else:
+            v = fresh("e")
+            L.append(f"let {v} = [is_error({iexp(1)}), char(97), byte(65), int(\"x\"), get({rng.choice(A)}, 99)];")
+        if rng.random() < 0.3:
+            v = fresh("r")
+            L.append(f"let {v} = {iexp(2)};")
+            ints.append(v)
+    if ints_f:
+        L.append(f"let {fresh('r')} = {ints_f}({iexp(1)}) + len([1, 2]);")
+    if rng.random() < 0.2:
+        a = rng.choice(list(arrs))
+        bad = [f"let z = len({a}, 1);", "let z = len(5);", f"let z = push({a});", "let z = first(1);", f"let z = get({a}, \"k\");", "let z = rest(\"s\");",
+               "let z = insert([1], 1, 2);", "let z = contains([1], 1);", f"let z = pop(\"s\");", "let z = len();", "let z = int([1]);", "let z = sort(3);",
+               "let z = tolower(1);", "let z = join([1], 2);"]
+        L.insert(rng.randrange(max(1, len(L) - 3), len(L) + 1), rng.choice(bad))
+    return "\n".join(L) + "\n"
+
+
+CORE_BUILTIN_FIXED = [
+    "let a = [3, 1, 2];\nlet b = a;\npush(b, 9);\nlet n = len(a);\nlet p = pop(a);\nlet q = len(b);\n",
+    "let a = [1, 2, 3];\nlet r = rest(a);\nr[0] = 100;\nlet x = a[1];\nlet f = first(a);\nlet l = last(a);\nlet e = first([]);\n",
+    "let m = map {\"k\": 1};\nlet o = insert(m, \"k\", 2);\nlet p = insert(m, \"z\", [1]);\nlet c = contains(m, \"z\");\nlet g = get(m, \"k\");\nlet h = get(m, \"none\");\nlet n = len(m);\n",
+    "let ff = len;\nlet q = ff(\"abc\");\nfn h(len) { len + 1 }\nlet t = h(5);\n{ let len = 7; t = t + len; }\nlet u = len([1]);\nlet same = ff == len;\n",
+    "let len = 3;\nlet x = len + 1;\n",
+    "fn f(a) { push(a, len(a)); a }\nlet v = [0];\nlet w = f(f(v));\nlet n = len(v);\n",
+    "fn mk() { let t = []; fn(x) { push(t, x); len(t) } }\nlet c = mk();\nlet d = mk();\nlet r1 = c(5);\nlet r2 = c(6);\nlet r3 = d(7);\n",
+    "let a = [3, 1, 2];\nlet s = sort(a);\ns[0] = 55;\nlet v = a[0];\nlet same = s == a;\n",
+    "let s = str([1, [2, \"x\"], null, true]);\nlet t = str(map {1: 2});\nlet u = str(\"q\") + str('c') + str(12);\nlet i = int(\"42\") + int('a') + int(true) + int(7);\nlet bad = int(\"zz\");\n",
+    "let w = chars(\"héy\");\nlet j = join(w, \"-\");\nlet up = toupper(j);\nlet lo = tolower(\"ABC\");\n",
+    "let x = len(5);\n",
+    "let x = len([1], 2);\n",
+    "let a = [1];\nlet x = push(a);\n",
+    "let x = first(\"s\");\n",
+    "let x = get([1, 2], 5);\nlet y = get([1, 2], -1);\nlet z = get([1, 2], \"k\");\n",
+    "let p = pop([]);\nlet q = len([]);\nlet r = rest([]);\nlet l = last([]);\n",
+    "let a = [[1], [2]];\nlet f = first(a);\npush(f, 9);\nlet x = a[0];\nlet l = last(a);\nl[0] = 7;\nlet y = a[1][0];\n",
+]
+
+
 CORE_CLOS_FIXED = [
     "fn mk(a, b) { let c = a * 2; return fn(x) { a - b + c * x }; }\nlet f = mk(1, 2);\nlet g = mk(10, 3);\nlet r = f(5);\nlet q = g(7);\n",
     "fn counter() { let n = 0; return fn() { n = n + 1; n }; }\nlet c = counter();\nlet d = counter();\nlet r1 = c();\nlet r2 = c();\nlet r3 = d();\nlet r4 = c();\nlet e = c;\nlet r5 = e();\nlet r6 = c();\n",
@@ -927,13 +1087,30 @@ CORE_FN_FIXED = [
     "fn f(x) { while x > 0 { x = x - 1; } }\nlet r = f(3);\n",
     "fn fib(n) { if n < 2 { return n; } let a = fib(n - 1); let b = fib(n - 2); a + b }\nlet i = 0;\nlet s = 0;\nwhile i < 8 { s = s + fib(i); i = i + 1; }\n",
     "let f = fn(n, acc) { if n <= 0 { return acc; } f(n - 1, acc + n) };\nlet r = f(50, 0);\n",
-] + CORE_CLOS_FIXED + CORE_HEAP_FIXED
+] + CORE_CLOS_FIXED + CORE_HEAP_FIXED + CORE_BUILTIN_FIXED
+
+
+def alias_programs(rng, n):
+    """arrays and maps are shared by reference, `+` builds a NEW array whatever its operands are: mutate one side, observe both"""
+    empties = ["[]", "e()", "rest([1])", "([] + [])", "z"]
+    muts = ["b[0] = 9;", "push(b, 4);", "pop(b);", "b[1] = b[0];", "sort(b);"]
+    out = []
+    for _ in range(n):
+        e = rng.choice(empties)
+        a = "[" + ", ".join(str(rng.randint(1, 9)) for _ in range(rng.randint(1, 4))) + "]"
+        form = rng.choice(["a + {e}", "{e} + a", "a + {e} + {e}", "({e} + a) + {e}", "cat(a, {e})", "a"])
+        mut = " ".join(rng.sample(muts, rng.randint(1, 3)))
+        out.append("let obs = [];\nfn e() { return []; }\nfn cat(x, y) { return x + y; }\nlet z = [];\nlet a = %s;\nlet b = %s;\n%s\npush(obs, a + []);\npush(obs, b + []);\npush(obs, z + []);\nobs\n"
+                   % (a, form.format(e=e), mut))
+    return out
 
 
 def sources(ctx):
     rng = ctx.rng
     out = []
     tags = []
+    for s in alias_programs(rng, ctx.scale(60, 3000)):
+        out.append(s); tags.append("alias")
     for s in gen_lang.SPECIALS:
         out.append(s); tags.append("special")
     for s in gen_lang.FAULTY:
